@@ -71,9 +71,10 @@ VARIABLES
   wire,     \* [Sessions -> Seq(response)]           output of the step just taken (not part of the view)
   last,     \* record describing the step just taken (not part of the view)
   steps,    \* number of steps taken (simulation only)
+  pick,     \* simulation: the kind of action drawn for the next step (None = not drawn yet)
   hist      \* simulation: the behaviour so far (not part of the view)
 
-vars == <<rows, uidNext, flg, used, dead, recd, sel, ro, snap, res, q, idle, mirror, taint, ever, wire, last, steps, hist>>
+vars == <<rows, uidNext, flg, used, dead, recd, sel, ro, snap, res, q, idle, mirror, taint, ever, wire, last, steps, pick, hist>>
 view == <<rows, uidNext, flg, used, dead, recd, sel, ro, snap, res, q, idle, mirror, taint>>
 viewNoMirror == <<rows, uidNext, flg, used, dead, recd, sel, ro, snap, res, q, idle, taint>>
 
@@ -257,6 +258,7 @@ Quiet == [t \in Sessions |-> <<>>]
 Log(act, s, args, status) ==
   /\ last' = [act |-> act, s |-> s, args |-> args, status |-> status]
   /\ steps' = steps + 1
+  /\ pick' = None
 
 \* end of a command of a selected session: own updates, flush, mirror, wire
 \*   mode = "exp" (flush with permitExpunge), "noexp", "none"; pre = data responses sent before the flush
@@ -302,6 +304,7 @@ Init ==
   /\ wire = Quiet
   /\ last = [act |-> "Init", s |-> None, args |-> <<>>, status |-> "OK"]
   /\ steps = 0
+  /\ pick = None
   /\ hist = <<>>
 
 Ready(s) == ~idle[s] /\ (DrainFirst => q[s] = <<>>)
@@ -821,7 +824,31 @@ PhaseLen == IF Script # <<>> THEN Len(Script) + MaxSteps ELSE MaxSteps
 Scripted ==
   (Script # <<>> /\ steps < Len(Script)) =>
      LET sc == Script[steps + 1] IN last'.act = sc.act /\ last'.s = sc.s /\ last'.args = sc.args
-SimNext == ((steps < PhaseLen /\ Free /\ Scripted) \/ (steps >= PhaseLen /\ Drain)) /\ Keep
+\* Simulation draws the KIND of the next action first (one successor per kind, so kinds are equally likely
+\* whatever the number of argument variants), then one action of that kind - or nothing, if the draw is skipped.
+KindActs == [sel |-> {"Select", "Examine", "Close", "Unselect"}, append |-> {"Append"}, store |-> {"Store"},
+             fetch |-> {"Fetch", "FetchBody", "Refused"}, expunge |-> {"Expunge", "UidExpunge"}, noop |-> {"Noop"},
+             copymove |-> {"Copy", "Move"}, idle |-> {"IdleBegin", "IdleDone"},
+             deliver |-> {"Deliver"}, deliver2 |-> {"Deliver"}, deliver3 |-> {"Deliver"},
+             conn |-> {"ConnSetBoxes", "ConnSetFlags", "ConnDelete", "ConnUpdateSame", "ConnBad", "ConnCreateDup", "ConnIDChanged"}]
+Kinds == {k \in DOMAIN KindActs : \E a \in KindActs[k] : a \in Acts \/ (a \in {"IdleBegin", "IdleDone"} /\ "Idle" \in Acts)}
+DrawKind ==
+  /\ pick = None
+  /\ \E k \in Kinds : pick' = k
+  /\ wire' = Quiet
+  /\ UNCHANGED <<rows, uidNext, flg, used, dead, recd, sel, ro, snap, res, q, idle, mirror, taint, ever, last, steps, hist>>
+SkipDraw ==
+  /\ pick # None /\ pick' = None
+  /\ wire' = Quiet
+  /\ UNCHANGED <<rows, uidNext, flg, used, dead, recd, sel, ro, snap, res, q, idle, mirror, taint, ever, last, steps, hist>>
+SimNext ==
+  \/ (steps < PhaseLen /\ Script # <<>> /\ steps < Len(Script)) /\ Free /\ Scripted /\ Keep
+  \/ (steps < PhaseLen /\ ~(Script # <<>> /\ steps < Len(Script))) /\
+       \/ DrawKind
+       \/ (pick # None /\ Free /\ last'.act \in KindActs[pick] /\ Keep)
+       \/ SkipDraw
+  \/ (steps >= PhaseLen /\ pick = None /\ Drain /\ Keep)
+  \/ (steps >= PhaseLen /\ SkipDraw)
 
 \* Bounded exhaustive behaviours: after the scripted prefix EVERY sequence of MaxSteps free steps is explored
 \* (breadth-first, hist is part of the state so every path is a state) and driven to quiescence by a
